@@ -60,6 +60,21 @@ func main() {
 		for _, c := range ki.report() {
 			fmt.Printf("%s in %s: %s (%s) vs %s (%s) at: %s\n", P.pos(c.Pos), fnName(c.Fn), c.A, c.SeedA, c.B, c.SeedB, c.Detail)
 		}
+	case "filters":
+		P, err := loadProg("/repo", false, nil)
+		if err != nil {
+			fmt.Println(err)
+			os.Exit(2)
+		}
+		for _, fn := range P.Funcs {
+			pk := fnPkgPath(fn)
+			if P.isScaffold(fn) || !(strings.HasSuffix(pk, "/schedulers") || strings.HasSuffix(pk, "/schedule") || strings.HasSuffix(pk, "/checker")) {
+				continue
+			}
+			for _, fs := range P.filterSetsIn(fn) {
+				fmt.Printf("%s %-70s %s %-18s %s\n", P.instrPos(fs.Site), fnName(fn), fs.Mode, fs.Callee, fs)
+			}
+		}
 	case "selftest":
 		os.Exit(cmdSelftest(os.Args[2:]))
 	default:
